@@ -3,6 +3,7 @@
 package rules
 
 import (
+	"go/ast"
 	"go/types"
 	"sort"
 
@@ -52,4 +53,56 @@ var commonTrusted = []string{
 
 func isErrorType(t types.Type) bool {
 	return t != nil && types.Identical(t, types.Universe.Lookup("error").Type())
+}
+
+// armInspect walks the statements of one arm (a case clause, or any subtree) of fn like ast.Inspect, and
+// also the bodies of the new helpers (see an/known.go) called from it, once each: a rule about "the
+// range arm of executeList" keeps seeing the arm after its body was moved into a method.
+func armInspect(fn *an.Fn, root ast.Node, visit func(ast.Node) bool) {
+	seen := map[*an.Fn]bool{}
+	var walk func(n ast.Node)
+	walk = func(n ast.Node) {
+		var later []*an.Fn
+		ast.Inspect(n, func(m ast.Node) bool {
+			if m == nil {
+				return true
+			}
+			if !visit(m) {
+				return false
+			}
+			if call, ok := m.(*ast.CallExpr); ok && fn.P != nil {
+				if h := fn.P.NewHelperCallee(fn, call); h != nil && !seen[h] {
+					seen[h] = true
+					later = append(later, h)
+				}
+			}
+			return true
+		})
+		for _, h := range later {
+			walk(h.Body)
+		}
+	}
+	walk(root)
+}
+
+// inArm reports whether node n belongs to the arm: lexically, or through a new helper called from it.
+func inArm(fn *an.Fn, arm ast.Node, n ast.Node) bool {
+	if arm == nil || n == nil {
+		return false
+	}
+	if arm.Pos() <= n.Pos() && n.End() <= arm.End() {
+		return true
+	}
+	owner := fn.P.OwnerFn(n.Pos())
+	if owner == nil || !fn.P.IsNewHelper(owner.Root()) {
+		return false
+	}
+	found := false
+	armInspect(fn, arm, func(m ast.Node) bool {
+		if call, ok := m.(*ast.CallExpr); ok && fn.P.NewHelperCallee(fn, call) == owner.Root() {
+			found = true
+		}
+		return !found
+	})
+	return found
 }
